@@ -1,0 +1,6 @@
+//go:build !verif
+
+package storage
+
+// verifYield is a no-op unless the package is built with -tags verif.
+func verifYield(string) {}
